@@ -229,6 +229,15 @@ func init() {
 			d := rng.Int64N(lim)
 			c1 := rng.Int64N(lim)
 			c3 := rng.Int64N(lim)
+			if i%16 == 0 {
+				// offsets up to +-(2^63 - 2^42) ns (about 292 years): every term of the formulas still fits
+				// into int64 nanoseconds, twice the offset does not
+				theta = rng.Int64N(math.MaxInt64-(1<<42)) - (math.MaxInt64-(1<<42))/2
+				if rng.IntN(2) == 0 {
+					theta = []int64{1, -1}[rng.IntN(2)] * (math.MaxInt64 - (1 << 42) - rng.Int64N(1<<40))
+				}
+				d, c1, c3 = rng.Int64N(1<<39), rng.Int64N(1<<39), rng.Int64N(1<<39)
+			}
 			if rng.IntN(8) == 0 {
 				c1, c3 = 0, 0
 			}
